@@ -14,14 +14,20 @@ R = Sym("r", ("param", "array", "notnone"))
 TAR = SCORES + "._threshold_at_ratio"
 INV = SCORES + "._invert_increasing_function"
 
-_cache = {}
+def cache_of(ctx):
+    """Per-context memo (never module-level: a recycled id() of a dead context must not resurrect results of another tree)."""
+    return ctx.__dict__.setdefault("_memo", {})
+
+
+_cache = None  # removed: see cache_of
 
 
 def explore_threshold(ctx, chk, metric, sc, ec, method, cls=SCORES, stub=None):
     """Outcomes of obj.threshold_at_<metric>(r, method=<method>) (optionally stubbing a helper)."""
-    key = (id(ctx), metric, sc, ec, method, cls, stub)
-    if key in _cache:
-        return _cache[key]
+    key = (metric, sc, ec, method, cls, stub, ctx.ev.raw_float)
+    _c = cache_of(ctx)
+    if key in _c:
+        return _c[key]
     captured = []
     if stub:
         def handler(ev, fi, bound):
@@ -39,15 +45,16 @@ def explore_threshold(ctx, chk, metric, sc, ec, method, cls=SCORES, stub=None):
         o.captured = None
         if isinstance(o.value, App) and o.value.fn == "STUB":
             o.captured = captured[o.value.args[0].value]
-    _cache[key] = outs
+    _c[key] = outs
     return outs
 
 
 def explore_rate(ctx, chk, metric, sc, ec, cls=SCORES):
-    key = (id(ctx), "rate", metric, sc, ec, cls)
-    if key not in _cache:
-        _cache[key] = ctx.explore(lambda: ctx.ev.call(ctx.method(ctx.scores_obj(sc, ec, cls), metric), [T], {}), chk)
-    return _cache[key]
+    key = ("rate", metric, sc, ec, cls)
+    _c = cache_of(ctx)
+    if key not in _c:
+        _c[key] = ctx.explore(lambda: ctx.ev.call(ctx.method(ctx.scores_obj(sc, ec, cls), metric), [T], {}), chk)
+    return _c[key]
 
 
 def rate_term(ctx, chk, metric, sc, ec):
